@@ -53,6 +53,10 @@ type ConcState struct {
 	// slices: the part of a root slice parameter that a slice (or string converted from it) value denotes on this
 	// path, when its bounds are evident (ConcCfg.SliceLen fixes the parameter's length)
 	slices map[ssa.Value]SliceFact
+	// lists: slices built evidently on this path, element by element (conclist.go)
+	lists map[ssa.Value][]ssa.Value
+	// eqs: comparisons x == y between two values that a branch of this path decided (true: equal)
+	eqs map[[2]ssa.Value]bool
 	// dyn: what an interface value holds on this path (ConcCfg.Init seeds it for parameters): its dynamic type and,
 	// for an integer-like payload, the value. Shared between the states of one exploration (never changed after Init).
 	dyn map[ssa.Value]DynFact
@@ -92,6 +96,24 @@ func (st *ConcState) retire(v ssa.Value) {
 		}
 	}
 	if !used {
+		for _, l := range st.lists {
+			for _, e := range l {
+				if e == v {
+					used = true
+				}
+			}
+		}
+	}
+	if !used {
+		// comparisons decided about it are about the old instance
+		for k := range st.eqs {
+			if k[0] == v || k[1] == v {
+				used = true
+			}
+		}
+	}
+	if !used {
+		delete(st.lists, v)
 		return
 	}
 	g := &pastVal{Value: v}
@@ -109,6 +131,33 @@ func (st *ConcState) retire(v ssa.Value) {
 	}
 	if f, ok := st.slices[v]; ok {
 		st.slices[g] = f
+	}
+	if l, ok := st.lists[v]; ok {
+		st.lists[g] = l
+		delete(st.lists, v)
+	}
+	for k, b := range st.eqs {
+		if k[0] == v || k[1] == v {
+			nk := k
+			if nk[0] == v {
+				nk[0] = g
+			}
+			if nk[1] == v {
+				nk[1] = g
+			}
+			delete(st.eqs, k)
+			st.eqs[nk] = b
+		}
+	}
+	for k, l := range st.lists {
+		for i, e := range l {
+			if e == v {
+				nl := append([]ssa.Value{}, l...)
+				nl[i] = g
+				l = nl
+				st.lists[k] = nl
+			}
+		}
 	}
 	for w, t := range st.alias {
 		if t == v {
@@ -425,6 +474,18 @@ func (st *ConcState) clone() *ConcState {
 			n.slices[k] = v
 		}
 	}
+	if len(st.lists) > 0 {
+		n.lists = make(map[ssa.Value][]ssa.Value, len(st.lists))
+		for k, v := range st.lists {
+			n.lists[k] = v
+		}
+	}
+	if len(st.eqs) > 0 {
+		n.eqs = make(map[[2]ssa.Value]bool, len(st.eqs))
+		for k, v := range st.eqs {
+			n.eqs[k] = v
+		}
+	}
 	for k, v := range st.ints {
 		n.ints[k] = v
 	}
@@ -557,6 +618,9 @@ func (st *ConcState) eval(v ssa.Value, d int) (int64, bool) {
 		if CallBuiltin(x) == "len" && len(x.Call.Args) == 1 {
 			if f, ok := st.SliceOf(x.Call.Args[0]); ok {
 				return f.Hi - f.Lo, true
+			}
+			if _, l, ok := st.listOf(x.Call.Args[0]); ok {
+				return int64(len(l)), true
 			}
 			a := x.Call.Args[0]
 			for k := 0; k < 8; k++ {
@@ -729,6 +793,8 @@ type ConcAlt struct {
 	Nils   map[ssa.Value]bool
 	Slices map[ssa.Value]SliceFact
 	Fields []FieldVal
+	// Lists: what a slice value holds after the instruction, element by element (ConcState.ListOf)
+	Lists map[ssa.Value][]ssa.Value
 }
 
 // FieldVal: field Field of the struct that Obj denotes holds Val.
@@ -962,6 +1028,30 @@ func ConcPaths(fn *ssa.Function, cfg ConcCfg) (seqs []string, truncated bool) {
 			}
 		}
 		if bo, ok := c.(*ssa.BinOp); ok && (bo.Op == token.EQL || bo.Op == token.NEQ) {
+			// what the two operands stand for right now compare equal / unequal on this path
+			_, cx := bo.X.(*ssa.Const)
+			_, cy := bo.Y.(*ssa.Const)
+			if !cx && !cy {
+				rx, ry := bo.X, bo.Y
+				for k := 0; k < 8; k++ {
+					if nx := st.alias[rx]; nx != nil {
+						rx = nx
+					} else {
+						break
+					}
+				}
+				for k := 0; k < 8; k++ {
+					if nx := st.alias[ry]; nx != nil {
+						ry = nx
+					} else {
+						break
+					}
+				}
+				if ns.eqs == nil {
+					ns.eqs = map[[2]ssa.Value]bool{}
+				}
+				ns.eqs[[2]ssa.Value{rx, ry}] = (bo.Op == token.EQL) == pol
+			}
 			eq := (bo.Op == token.EQL) == pol
 			x, y := bo.X, bo.Y
 			if IsNilConst(x) {
@@ -1077,6 +1167,24 @@ func ConcPaths(fn *ssa.Function, cfg ConcCfg) (seqs []string, truncated bool) {
 					_, h2 := st.nils[v]
 					_, h3 := st.alias[v]
 					_, h4 := st.slices[v]
+					if _, h5 := st.lists[v]; h5 {
+						h4 = true
+					}
+					// ... or an evident list / a decided comparison still refers to the previous instance
+					if !h4 && (len(st.lists) > 0 || len(st.eqs) > 0) {
+						for _, l := range st.lists {
+							for _, e := range l {
+								if e == v {
+									h4 = true
+								}
+							}
+						}
+						for k := range st.eqs {
+							if k[0] == v || k[1] == v {
+								h4 = true
+							}
+						}
+					}
 					if h1 || h2 || h3 || h4 {
 						st = st.clone()
 						st.retire(v)
@@ -1085,6 +1193,7 @@ func ConcPaths(fn *ssa.Function, cfg ConcCfg) (seqs []string, truncated bool) {
 						delete(st.alias, v)
 						delete(st.syms, v)
 						delete(st.slices, v)
+						delete(st.lists, v)
 					}
 				}
 			}
@@ -1096,6 +1205,7 @@ func ConcPaths(fn *ssa.Function, cfg ConcCfg) (seqs []string, truncated bool) {
 				}
 			}
 			st0 := st // what held before this instruction took effect (Fork looks at this)
+			st = listEffects(st, in)
 			switch x := in.(type) {
 			case *ssa.Defer:
 				if sc := x.Call.StaticCallee(); sc != nil && len(sc.Blocks) > 0 && curProgRoot(sc) && sc.Parent() == nil {
@@ -1775,6 +1885,12 @@ func ConcPaths(fn *ssa.Function, cfg ConcCfg) (seqs []string, truncated bool) {
 								ns.slices = map[ssa.Value]SliceFact{}
 							}
 							ns.slices[v] = f
+						}
+						for v, l := range a.Lists {
+							if ns.lists == nil {
+								ns.lists = map[ssa.Value][]ssa.Value{}
+							}
+							ns.lists[v] = l
 						}
 						for _, fv := range a.Fields {
 							if ns.fmem == nil {
